@@ -21,6 +21,7 @@ template<typename T> std::vector<T> keep(const std::vector<T>& v, const std::vec
 struct State {
 	std::vector<Vector3> verts, normals, tangents, bitangents;
 	std::vector<Vector2> uvs;
+	std::vector<std::vector<Vector2>> allUv;                                // NiGeometryData: every stored UV set (files before stream 34 hold up to 63)
 	std::vector<Color4> colors;
 	std::vector<float> eye;
 	std::vector<Triangle> tris;
@@ -39,6 +40,7 @@ State capture(NifFile& nif, NiShape* s) {
 	if (auto n = nif.GetNormalsForShape(s)) { st.normals = *n; st.hasN = s->HasNormals(); }
 	st.hasT = nif.GetTangentsForShape(s, st.tangents) && nif.GetBitangentsForShape(s, st.bitangents);
 	st.hasUV = nif.GetUvsForShape(s, st.uvs);
+	if (auto gd = s->GetGeomData()) st.allUv = gd->uvSets;
 	st.hasC = nif.GetColorsForShape(s, st.colors);
 	st.hasEye = NifFile::GetEyeDataForShape(s, st.eye);
 	s->GetTriangles(st.tris);
@@ -102,6 +104,9 @@ bool deleteAndCheck(NifFile& nif, NiShape* s, const std::vector<uint16_t>& del, 
 	if (s->GetNumVertices() != nvAfter) return V("vertex-count", kind, w + fmt(": GetNumVertices() = %u, expected %zu", s->GetNumVertices(), nvAfter));
 	if (!bitEq(post.verts, keep(pre.verts, collapse))) return V("positions", kind, w + ": surviving positions are not the original ones in order");
 	if (pre.hasUV && !bitEq(post.uvs, keep(pre.uvs, collapse))) return V("uvs", kind, w + ": surviving UVs changed");
+	if (post.allUv.size() != pre.allUv.size()) return V("uv-sets", kind, w + fmt(": %zu UV sets before, %zu after", pre.allUv.size(), post.allUv.size()));
+	for (size_t k = 0; k < pre.allUv.size(); k++)
+		if (pre.allUv[k].size() == nv && !bitEq(post.allUv[k], keep(pre.allUv[k], collapse))) return V("uv-sets", kind, w + fmt(": UV set %zu of %zu does not hold exactly the survivors' coordinates (%zu entries for %zu vertices)", k, pre.allUv.size(), post.allUv[k].size(), nvAfter));
 	if (pre.hasN && !pre.normals.empty() && !bitEq(post.normals, keep(pre.normals, collapse))) return V("normals", kind, w + ": surviving normals changed");
 	if (pre.hasT && (!bitEq(post.tangents, keep(pre.tangents, collapse)) || !bitEq(post.bitangents, keep(pre.bitangents, collapse)))) return V("tangents", kind, w + ": surviving tangents/bitangents changed");
 	if (pre.hasC && !bitEq(post.colors, keep(pre.colors, collapse))) return V("colors", kind, w + ": surviving vertex colours changed");
@@ -315,6 +320,7 @@ void runModel(NifFile& nif, const std::string& what, Rng& rng, int rounds, int m
 			else if (a.hasT != b.hasT || (a.hasT && (!cmp3(a.tangents, b.tangents, bs ? 2e-2f : 0.0f, 0.0f) || !cmp3(a.bitangents, b.bitangents, bs ? 2e-2f : 0.0f, bs ? 2e-3f : 0.0f)))) bad = "tangents";
 			else if (a.hasUV != b.hasUV || a.uvs.size() != b.uvs.size()) bad = "uvs";
 			else if (a.hasC != b.hasC || a.colors.size() != b.colors.size()) bad = "colors";
+			if (!bad && a.allUv.size() > 1 && (a.allUv.size() != b.allUv.size() || !std::equal(a.allUv.begin(), a.allUv.end(), b.allUv.begin(), [](auto& x, auto& y) { return bitEq(x, y); }))) bad = "uv-sets";
 			if (!bad && a.hasUV)
 				for (size_t i = 0; i < a.uvs.size(); i++)
 					if (std::fabs(a.uvs[i].u - b.uvs[i].u) > (bs ? 2e-3f * (1.0f + std::fabs(a.uvs[i].u)) : 0.0f) || std::fabs(a.uvs[i].v - b.uvs[i].v) > (bs ? 2e-3f * (1.0f + std::fabs(a.uvs[i].v)) : 0.0f)) { bad = "uvs"; break; }
@@ -433,6 +439,7 @@ void run(size_t idx) {
 		if (loadNif(nif, m.bytes) != 0) return;
 		std::string what = "api:" + m.desc;
 		if (idx % 7 == 3 && permutePartitionVertexMaps(nif, rng) > 0) what += " [partition vertex maps permuted]";
+		if (idx % 7 == 5 && stripPartitions(nif, rng) > 0) { what += " [partition faces stored as strips]"; R_stat("models_with_strip_partitions"); }
 		if (idx % 6 == 3 && idx % 4 == 3 && dropPartitionFaces(nif) > 0) {
 			// SSE: a file whose partitions come without the optional face list
 			NifFile cp(nif);
@@ -440,6 +447,21 @@ void run(size_t idx) {
 			if (loadNif(nif, b2) != 0) return;
 			what += " [partitions without face lists]";
 			R_stat("models_with_partitions_without_face_lists");
+		}
+		if (idx % 6 == 0 && (idx / 6) % 2 == 1) {
+			// Oblivion-era geometry stores up to 63 UV sets (count in the low bits of the data flags): base map plus detail / light maps
+			int extra = 0;
+			for (auto sh : nif.GetShapes())
+				if (auto gd = sh->GetGeomData()) {
+					if (gd->uvSets.size() != 1) continue;
+					size_t k = 2 + rng.below(3);
+					gd->uvSets.resize(k, gd->uvSets[0]);
+					for (size_t q = 1; q < k; q++)
+						for (size_t v = 0; v < gd->uvSets[q].size(); v++) gd->uvSets[q][v] = Vector2((float)q + (float)v / 1024.0f, 0.5f - (float)v / 512.0f);
+					gd->dataFlags = (uint16_t)((gd->dataFlags & ~0x3F) | k);
+					extra++;
+				}
+			if (extra) { what += " [2..4 UV sets per shape]"; R_stat("models_with_several_uv_sets"); }
 		}
 		bool strips = false;
 		if (idx % 5 == 4 && (idx % 6) < 3) {   // OB/FO3/SK: strip geometry
@@ -456,7 +478,7 @@ MonReg reg({"C09", "exploration",
 			"shapes: FO4 / FO76 grids with more than 65535 triangles, NiTriShape, NiTriStrips (hand-built strips), BSTriShape, BSDynamicTriShape, BSSubIndexTriShape with FO4 segments, skinned (NiSkinData+partitions, BSSkin) and "
 			"unskinned, from API-built models in six versions and from the real samples. Index sets (always sorted, duplicate-free): single, prefix, suffix incl. the last vertex, "
 			"alternating, all, last only, random sparse/dense; 1..5 successive deletions; exhaustively every non-empty subset of meshes with 1..5 (quick) / 1..7 (thorough) vertices in "
-			"six versions, skinned and unskinned. Oracle vs reference model: survivors in order with bit-identical positions/UVs/normals/tangents/colours/eye data/vertex weights; "
+			"six versions, skinned and unskinned; half of the Oblivion models carry 2..4 UV sets per shape, one model in seven has its mapped partitions stored as triangle strips. Oracle vs reference model: survivors in order with bit-identical positions/UVs (every stored set)/normals/tangents/colours/eye data/vertex weights; "
 			"triangle list == filtered, re-indexed originals in order; NiSkinData weights and LOCKEDNORM lists restricted and re-indexed; every index in triangles, strips, skin weights, "
 			"partition maps in range; counters equal sizes; C10 partition invariants; FO4 segment table partitions the triangles and labels survive; geometry stable across save+reload and every per-vertex attribute read back from the saved file equals the model after the deletions (exact for NiGeometry data, storage tolerance for BSTriShape); partition bones/weights still agree with NiSkinData where they did before.",
 			[] { Plan p = plan(); return realSamples().size() * p.realRounds + 6 * 2 * (size_t)p.exhMax + p.api + (g_cfg.tier ? 12 : 2); }, run, 8, 300.0, false, false, nullptr});
